@@ -65,6 +65,23 @@ class Ref:
             return float(self.d.cdf(math.floor(x)))
         return float(self.d.cdf(x))
 
+    def cdf_int(self, x):
+        """Schulz-Zimm as the documented density sampled on the integers and normalised: P(M <= x)"""
+        if self.family != "schulz_zimm":
+            return self.cdf(x)
+        if not hasattr(self, "_grid"):
+            hi = int(math.ceil(self.d.isf(1e-15))) + 5
+            ks = np.arange(0, hi + 1)
+            with np.errstate(all="ignore"):
+                pm = self.d.pdf(ks)
+            pm = np.where(np.isfinite(pm), pm, 0.0)
+            self._cum = np.cumsum(pm) / pm.sum()
+            self._grid = hi
+        k = int(math.floor(x))
+        if k < 0:
+            return 0.0
+        return float(self._cum[min(k, self._grid)])
+
     def pmf(self, k):
         f = self.family
         if f == "poisson":
